@@ -169,6 +169,16 @@ rc::Gen<Xfer> genXfer() {
         const unsigned unit = x.dword ? 4 : 2; // external unit size in bytes, matched to the element size
         x.burst = (x.src_ext || x.dst_ext) && s.chance(1, 3) ? 1 + (unsigned)s.below(2) : 0;
         auto step_gen = [&](bool ext) -> uint16_t {
+            if (s.chance(1, 10)) {
+                // a step with the top bit set: added to the 32-bit address as it stands (dma.md), not as a negative number
+                static const uint16_t big[] = {0x8000, 0x8002, 0xFFFE, 0xFFFC, 0xC000, 0x8004};
+                uint16_t v = s.chance(2, 3) ? big[s.below(6)] : (uint16_t)(0x8000 + s.below(0x8000));
+                if (ext)
+                    v &= (uint16_t)~(unit - 1);
+                else if (s.chance(1, 3))
+                    v |= 1;
+                return v;
+            }
             if (ext) {
                 // naturally aligned external addresses: steps are multiples of the unit size
                 static const unsigned m[] = {1, 1, 1, 2, 3, 8};
@@ -205,13 +215,25 @@ rc::Gen<Xfer> genXfer() {
             for (int i = 0; i < 3; ++i) {
                 if (x.src_ext)
                     x.sstep[i] = (uint16_t)unit;
+                else if (x.sstep[i] >= 0x8000)
+                    x.sstep[i] = (uint16_t)(unit / 2); // whole bursts must survive: no shrinking of burst transfers below
                 if (x.dst_ext)
                     x.dstep[i] = (uint16_t)unit;
+                else if (x.dstep[i] >= 0x8000)
+                    x.dstep[i] = (uint16_t)(unit / 2);
             }
             unsigned n0 = blen * (1 + (unsigned)s.below(3));
             x.size[0] = (uint16_t)(x.dword ? 2 * n0 : n0);
             x.size[1] = (uint16_t)(1 + s.below(2));
             x.size[2] = 1;
+        }
+        // large steps: shrink the transfer until the DSP-side walk fits the 17-bit data space
+        for (int guard = 0; guard < 40 && !x.burst; ++guard) {
+            bool fits = (x.src_ext || last_offset(x, true) + 2 <= 0x20000) && (x.dst_ext || last_offset(x, false) + 2 <= 0x20000);
+            if (fits)
+                break;
+            int k = x.size[2] > 1 ? 2 : x.size[1] > 1 ? 1 : 0;
+            x.size[k] = (uint16_t)(x.size[k] / 2);
         }
         // start addresses: DSP side anywhere in the 17-bit data space that keeps the walk inside it; external side aligned
         auto place = [&](bool ext, bool src_side) {
@@ -448,6 +470,15 @@ vf::Result check(const Case& cs) {
         vf::klass(std::string(x.src_ext ? "ext" : "dsp") + "->" + (x.dst_ext ? "ext" : "dsp") + (x.burst ? (x.burst == 1 ? " burst x4" : " burst x8") : ""));
         if (x.channel != 0)
             vf::klass("channel != 0");
+        {
+            bool applied_big = false;
+            auto sq = seq;
+            for (size_t i = 1; i < sq.size(); ++i)
+                if (sq[i].src - sq[i - 1].src >= 0x8000 || sq[i].dst - sq[i - 1].dst >= 0x8000)
+                    applied_big = true;
+            if (applied_big)
+                vf::klass("a step >= 0x8000 was applied");
+        }
         if (!x.src_ext && !x.dst_ext) {
             uint32_t a0 = x.src, a1 = x.src + last_offset(x, true), b0 = x.dst, b1 = x.dst + last_offset(x, false);
             if (a0 <= b1 && b0 <= a1) {
